@@ -78,8 +78,8 @@ def gen_case(rng, i):
 
     kind = ["monitor", "vecmon", "eval"][i % 3]
     if kind == "monitor":
-        two = rng.random() < 0.2
-        scripts = [se.gen_script(rng, max_len=5) for _ in range(2 if two else 1)]
+        two = rng.random() < 0.3          # several monitors logging into one directory (as make_vec_env(monitor_dir=...) with n_envs > 1)
+        scripts = [se.gen_script(rng, max_len=5) for _ in range(rng.choice([2, 2, 3]) if two else 1)]
         n_ops = rng.randint(1, 26)
         p_reset = rng.choice([0.1, 0.25, 0.5])
         ops = [[rng.randrange(len(scripts)), "r" if (rng.random() < p_reset or k == 0) else "s"] for k in range(n_ops)]
@@ -97,6 +97,7 @@ def gen_case(rng, i):
         if missing_kw:   # the last operation is a reset WITHOUT the required keyword: ValueError
             ops.append([0, "r_missing"])
         return {"kind": kind, "scripts": scripts, "allow": rng.random() < 0.6, "ops": ops, "reset_kw": reset_kw, "append": append,
+                "clock_gap": rng.choice([0, 7, 50, 1000]) if two else 0,      # the monitors are created at different instants
                 "dir_filename": (not two) and (not append) and rng.random() < 0.2,
                 "reward_scale": rng.choice([None, None, None, 0.3337, 1e-3 / 3, 1234.567]),
                 "info_keywords": rng.choice([[], ["tag"], ["tag", "k1"]]), "id": i}
@@ -159,7 +160,10 @@ def run_monitor(case):
         n_first = len(case["scripts"])
         # filename may also be an existing directory (the file is then <dir>/monitor.csv)
         fname = (lambda j: d) if case.get("dir_filename") else (lambda j: os.path.join(d, f"m{j}"))
-        mons = [M.Monitor(e, filename=fname(j), allow_early_resets=case["allow"], info_keywords=kw, reset_keywords=rkw) for j, e in enumerate(envs[:n_first])]
+        mons = []
+        for j, e in enumerate(envs[:n_first]):
+            M.time.now += float(case.get("clock_gap", 0)) * j        # deterministic: the fake clock jumps between the constructions
+            mons.append(M.Monitor(e, filename=fname(j), allow_early_resets=case["allow"], info_keywords=kw, reset_keywords=rkw))
         events = []
         mid_rows = {}
         n_ops = len(case["ops"])
@@ -201,8 +205,16 @@ def run_monitor(case):
         for m in mons:
             m.close()
         dir_file_ok = (not case.get("dir_filename")) or os.path.exists(os.path.join(d, "monitor.csv"))
+        # the raw files (header t_start, rows with their own relative t): input of Model.Monitor.load_results_model
+        raw_files = []
+        for fn in sorted(M.get_monitor_files(d)):
+            with open(fn) as fh:
+                head = json.loads(fh.readline()[1:])
+                lines = fh.read().strip().split("\n")[1:]
+            rows_f = [ln.split(",") for ln in lines if ln]
+            raw_files.append({"t_start": head["t_start"], "rows": [[float(r[2]), float(r[0]), int(r[1])] for r in rows_f]})
         rows = _rows(M.load_results(d), kw + rkw)
-        return {"events": events, "stats": stats, "rows": rows, "mid_rows": mid_rows, "empty_dir_raises": empty_dir_raises,
+        return {"events": events, "stats": stats, "rows": rows, "raw_files": raw_files, "mid_rows": mid_rows, "empty_dir_raises": empty_dir_raises,
                 "dir_file_ok": dir_file_ok}
     finally:
         shutil.rmtree(d, ignore_errors=True)
@@ -361,6 +373,11 @@ def model_exprs(case, impl):
         for w, sc in enumerate(mon_scripts(case)):
             ops = coq_list(["UReset" if o[1] == "r" else "UStep" for o in case["ops"] if o[0] == w and o[1] != "r_missing"])
             ex.append(f"let '(s, outs) := mon_env_run {coq_bool(case['allow'])} {coq_script(sc)} cursor0 m0 {ops} in (outs, m_rows s, m_total s)")
+        # load_results over the raw files: rows shifted by their own file's t_start, then sorted (times in microseconds)
+        us = lambda x: int(round(x * 1e6))  # noqa: E731
+        files = coq_list([f"({coq_Z(us(f['t_start']))}, {coq_list([f'({coq_Z(us(r[0]))}, ({coq_Z(_q(r[1]) if _q(r[1]) is not None else 0)}, {coq_Z(r[2])}))' for r in f['rows']])})"
+                          for f in impl.get("raw_files", [])])
+        ex.append(f"load_results_model {files}")
         return ex
     if case["kind"] == "vecmon":
         scs = coq_list([coq_script(sc) for sc in case["scripts"]])
@@ -493,6 +510,9 @@ def compare_monitor(case, impl, mv):
     # ---- model vs impl
     if case.get("reward_scale") is not None:
         return probs
+    merged = mv[len(mon_scripts(case))]
+    if not case.get("append") and [tuple(r) for r in merged] != [(_q(r[0]), r[1]) for r in impl["rows"]]:
+        probs.append(("monitor-load-results-merge", f"load_results rows {[r[:2] for r in impl['rows']]}, Model.Monitor.load_results_model on the raw files {merged}"))
     for w in range(len(mon_scripts(case))):
         outs, rows, total = mv[w]
         evs = [ev for ev in impl["events"] if ev["w"] == w and ev["op"] != "r_missing"]
@@ -701,7 +721,7 @@ def main():
         cases.append(gen_case(chk.rng, i))
     impls, results = run_cases(chk, cases)
     distinct = set()
-    hist = {"monitor": 0, "monitor_two_files": 0, "monitor_no_early_resets": 0, "vecmon": 0, "eval": 0, "eval_mode": {"0": 0, "1": 0, "2": 0, "3": 0, "4": 0, "5": 0}, "eval_raw_env": 0, "monitor_append": 0, "monitor_dir_filename": 0, "vecmon_inner_monitor": 0, "off_grid_rewards": 0,
+    hist = {"monitor": 0, "monitor_two_files": 0, "monitor_clock_gap": {}, "monitor_no_early_resets": 0, "vecmon": 0, "eval": 0, "eval_mode": {"0": 0, "1": 0, "2": 0, "3": 0, "4": 0, "5": 0}, "eval_raw_env": 0, "monitor_append": 0, "monitor_dir_filename": 0, "vecmon_inner_monitor": 0, "off_grid_rewards": 0,
             "eval_n_lt_envs": 0, "n_envs": {}, "info_keywords": {}}
     reported = set()
     for c, im, probs in zip(cases, impls, results):
@@ -712,7 +732,10 @@ def main():
         hist["monitor_dir_filename"] += int(bool(c.get("dir_filename")))
         hist["vecmon_inner_monitor"] += int(bool(c.get("inner_monitor")))
         if c["kind"] == "monitor":
-            hist["monitor_two_files"] += int(len(c["scripts"]) == 2)
+            hist["monitor_two_files"] += int(len(c["scripts"]) >= 2)
+            if len(c["scripts"]) >= 2:
+                g = str(c.get("clock_gap", 0))
+                hist["monitor_clock_gap"][g] = hist["monitor_clock_gap"].get(g, 0) + 1
             hist["monitor_no_early_resets"] += int(not c["allow"])
         if c["kind"] == "eval":
             hist["eval_mode"][str(c["mode"])] += 1
